@@ -802,15 +802,19 @@ class Interp:
             if path is not None:
                 members[path] = v
                 return
-        if l.get('k') == 'un' and l.get('op') == '*':
-            try:
-                a_c = self.ev(l['e'], env, members)
-            except Unsupported:
-                a_c = None
-            if isinstance(a_c, (LocalCell, MemberCell)):
-                a_c.set(v, l.get('t'))
-                return
         if (l.get('k') == 'un' and l.get('op') == '*') or l.get('k') == 'sub':
+            addr_once = None
+            if l.get('k') == 'un':
+                # the pointer operand is evaluated exactly once (it may have a side effect: *p++ = x)
+                try:
+                    addr_once = self.ev(l['e'], env, members)
+                except Unsupported:
+                    if self.memory is not None and isinstance(v, int):
+                        raise
+                    addr_once = None
+                if isinstance(addr_once, (LocalCell, MemberCell)):
+                    addr_once.set(v, l.get('t'))
+                    return
             if self.memory is not None and isinstance(v, int):
                 if l.get('k') == 'sub':
                     a0 = self.ev(l['base'], env, members)
@@ -818,11 +822,8 @@ class Interp:
                     ew, _ = width(l.get('t'))
                     addr = a0 + ix * max(1, ew // 8) if isinstance(a0, int) and isinstance(ix, int) else None
                 else:
-                    addr = self.ev(l['e'], env, members)
+                    addr = addr_once
                     ew, _ = width(l.get('t'))
-                    if isinstance(addr, (LocalCell, MemberCell)):
-                        addr.set(v, l.get('t'))
-                        return
                 if isinstance(addr, int):
                     self.write(addr, max(1, ew // 8), v & ((1 << ew) - 1))
                     self.mem_stores.append((show(l), v))
